@@ -127,6 +127,13 @@ def build_operator(kind, cfg, label, square=None, dims=None):
         pa = cfg.get("part_anns")
         for i, (r, c) in enumerate(ds):
             pann = tuple(getattr(cola, a) for a in (pa[i % len(pa)] if pa else ()))
+            if i == 0 and cfg.get("nested") and kind in ("Kronecker", "KronSum", "BlockDiag"):
+                # the first part is itself an operator of the same kind (two abstract parts; BlockDiag: multiplicities 2 and 1), so that code which
+                # special-cases nested operands of its own kind is exercised; everything else about it is abstract
+                sub = Cfg(cfg)
+                sub.update(arity=2, nested=False, mult=(2, 1), ann=())
+                parts.append(build_operator(kind, sub, f"{label}N"))
+                continue
             parts.append(AbstractOp(f"{label}{i}", r, c, dt, pann))
         if kind == "BlockDiag":
             mults = []
@@ -202,6 +209,7 @@ def make_alg(cls):
 
 
 ARITY_CAP = {("slogdet", "Kronecker"): 3}
+NESTED_SKIP = {("slogdet", "Kronecker")}     # the integer exponent prod/size of nested symbolic sizes is outside the proxy's integrality reasoning
 
 
 class RuleRunner:
@@ -239,6 +247,12 @@ class RuleRunner:
             for ar, dt, an, ex in itertools.product(arities, dtypes, anns, extra):
                 cfg = Cfg(arity=ar, dtype=dt, ann=an)
                 cfg.update(ex)
+                yield choice, cfg
+            if has_var and self.spec.get("nested", True) and any(c[0] == "op" and c[1] in ("Kronecker", "KronSum", "BlockDiag") and (self.fname, c[1]) not in NESTED_SKIP for c in choice):
+                # one extra configuration per rule of a nestable kind: first part nested, two parts, first dtype, no annotation
+                cfg = Cfg(arity=2, dtype=dtypes[0], ann=anns[0] if anns else ())
+                cfg.update(extra[0] if extra else {})
+                cfg["nested"] = True
                 yield choice, cfg
 
     def build_args(self, choice, cfg):
